@@ -26,7 +26,7 @@ structure PJ (s : SimS) : Prop where
   pg : PG none [] s
   ap : AP RunOK [] s
   q : QInv s
-  pf : PF s
+  pf : PFM s
 
 /-- Every task `get_placed_tasks()` returns is a RUNNING task. -/
 theorem PJ.placed_running {s : SimS} (h : PJ s) (t : TaskId) (ht : t ∈ placedList s) :
